@@ -221,7 +221,14 @@ impl InitSuite {
                 let att = t.get(1)?.to_string();
                 let party = self.parties.get(*t.get(2)?)?;
                 let payload = unhex(t.get(3)?.strip_prefix("payload=")?)?;
-                let pc = party.crypto.peer_instance(RawPayload(payload));
+                let mut pc = party.crypto.peer_instance(RawPayload(payload));
+                // salt=<4 bytes hex>: the salt of the salted node-id hash is prescribed instead of drawn at random
+                if let Some(s) = t.get(4).and_then(|x| x.strip_prefix("salt=")) {
+                    let b = unhex(s)?;
+                    let mut salt = [0u8; 4];
+                    salt.copy_from_slice(b.get(0..4)?);
+                    hcom::set_attempt_salt(&mut pc, salt);
+                }
                 let v = hcom::peer_crypto_view(&pc);
                 let h = v.init.as_ref()?.hash;
                 self.attempts.insert(att, pc);
